@@ -249,12 +249,14 @@ def run_cli_shard(d):
         for rate, ovl in RATES[:2]:
             ads = make(specs, rate, ovl)
             plain = AdapterCutter(ads, times=1, action="trim", index=False)
-            for variant in ("suffix", "rename", "length"):
+            for variant in ("suffix", "rename", "length", "polya"):
                 argv = ["--no-index", "--revcomp", "-e", repr(rate), "-O", str(ovl), "-o", out, "--json", js]
                 if variant == "rename":
                     argv += ["--rename", "{id}|{rc}|{adapter_name}"]
                 if variant == "length":
                     argv += ["--length", "2"]
+                if variant == "polya":
+                    argv += ["--poly-a"]  # a later stage: it must see the read in the chosen orientation (tail at the 3' end)
                 for t, s in specs:
                     argv += [flag[t], s]
                 r = clih.run_cli(argv + [inp])
@@ -275,6 +277,9 @@ def run_cli_shard(d):
                     es, eq = e.sequence, e.qualities
                     if variant == "length":
                         es, eq = es[:2], eq[:2]
+                    if variant == "polya":
+                        cut = refops.polya3(es)
+                        es, eq = es[:cut], eq[:cut]
                     if variant == "rename":
                         en = f"{nm.split()[0]}|{'rc' if use else ''}|{em[-1].adapter.name if em else 'no_adapter'}"
                     else:
